@@ -42,6 +42,7 @@ func checkC05(c *Ctx) {
 	ruleConfigFieldsOnlyFromParser(c, pf, "R5.8")
 	// and the deadzone rescale divides (v -/+ dz) by (1 - dz) of the SAME dz: the shaped value stays within [-1,1]
 	c.importRules(rescaleRules, []string{"R6.10", "R6.11", "R6.13"}, "R5.7") // and the centre shift 2v-1 is applied to unsigned positions only
+	c.importRules(transportRules, []string{"R15.2"}, "R5.9")                 // a complete three-byte message stays one on its way to the port: relays hand on what they took, message by message (nothing glued together, cut or altered)
 	c.MinCount("R5.1", 3)
 	c.MinCount("R5.2", 12)
 	c.MinCount("R5.3", 12)
@@ -417,6 +418,77 @@ func staticCallSites(p *Program, fn *ssa.Function) ([]ssa.CallInstruction, bool)
 	return out, true
 }
 
+// fromOwnQueue: the value sent was received from a channel that the device package makes itself and that only functions of
+// the device package send to (a queue between the device's emitters and the shared output): what goes in is checked at
+// those send sites, and the relay rules (R15.2, imported as R5.9) make sure it comes out unaltered.
+func fromOwnQueue(c *Ctx, v ssa.Value) (string, bool) {
+	var recv ssa.Instruction
+	switch x := v.(type) {
+	case *ssa.UnOp:
+		if x.Op == token.ARROW {
+			recv = x
+		}
+	case *ssa.Extract:
+		switch t := x.Tuple.(type) {
+		case *ssa.UnOp:
+			if t.Op == token.ARROW && x.Index == 0 {
+				recv = t
+			}
+		case *ssa.Select:
+			if x.Index >= 2 {
+				recv = t
+			}
+		}
+	}
+	if recv == nil {
+		return "", false
+	}
+	inDevice := func(fn *ssa.Function) bool {
+		top := topFunc(fn)
+		return top.Pkg != nil && top.Pkg.Pkg.Path() == pkgDevice
+	}
+	for _, cl := range buildChanFlow(c.P).Classes() {
+		has := false
+		for _, r := range cl.Recvs {
+			if r.Instr == recv {
+				if sel, isSel := recv.(*ssa.Select); isSel {
+					// the select state the value was taken from
+					ex := v.(*ssa.Extract)
+					n := 0
+					for k, st := range sel.States {
+						if st.Dir == types.RecvOnly {
+							if n == ex.Index-2 && k == r.Aux {
+								has = true
+							}
+							n++
+						}
+					}
+				} else {
+					has = true
+				}
+			}
+		}
+		if !has {
+			continue
+		}
+		if len(cl.Makes) == 0 || len(cl.Sends) == 0 {
+			return "", false
+		}
+		for _, m := range cl.Makes {
+			if !inDevice(m.Fn) {
+				return "", false
+			}
+		}
+		for _, sd := range cl.Sends {
+			if !inDevice(sd.Fn) {
+				return "", false
+			}
+		}
+		return fmt.Sprintf("forwards what it took from the device's own queue (made at %s, %d send site(s), all in package device and checked there)", c.P.Pos(cl.Makes[0].Instr.Pos()), len(cl.Sends)), true
+	}
+	return "", false
+}
+
 // ruleSendSites: R5.2 (only constructor results are sent) and R5.3/R5.4 (operands in range).
 func ruleSendSites(c *Ctx, dv *dev, pf *parserFacts, shapes map[*ssa.Function]*ctorShape) {
 	sites := midiSendSites(c.P)
@@ -437,6 +509,10 @@ func ruleSendSites(c *Ctx, dv *dev, pf *parserFacts, shapes map[*ssa.Function]*c
 			} else {
 				c.Bad("R5.2", key, pos, "a value that was not received from a channel is sent on a MIDI event channel outside package device")
 			}
+			continue
+		}
+		if why, ok := fromOwnQueue(c, s.val); ok {
+			c.OK("R5.2", key, pos, why)
 			continue
 		}
 		calls, ok := ctorCalls(s.val, dv, map[ssa.Value]bool{})
